@@ -20,6 +20,29 @@ def run(ctx):
     run_inprocess(ctx, "C26", ctx.n(66, 2500), THEOREMS,
                   need=(("reloads_by_startup", 1), ("startup_races", 1), ("self_sent", 5)))
 
+    # ---- the reload lock itself: the in-process suite above substitutes a recording lock for IdleReleaseDecorator's
+    # KeyedLock (its mutual exclusion per key is the subject of C25 and an assumption of M-IdleRelease); the
+    # implementation-side monitors of C25 are therefore evaluated here too, on the real KeyedLock
+    from suites import keyedlock as KL
+    rngk = random.Random(ctx.seed * 13 + 5)
+    nk, kfails = ctx.n(120, 1500), []
+    for i in range(nk):
+        keys = KL.gen_keys(rngk)
+        segs, mon, sched, stats = KL.random_schedule(rngk, keys)
+        ctx.count(1, ("keyedlock-forced", tuple(keys), tuple(sched)))
+        for clause, text in mon:
+            kfails.append((clause, text, dict(mode="forced", keys=keys, schedule_codes=sched)))
+    for i in range(ctx.n(60, 600)):
+        seed = rngk.randrange(1 << 30)
+        mon, facts = KL.loop_run(random.Random(seed))
+        ctx.count(1, ("keyedlock-loop", seed % 1000))
+        for clause, text in mon:
+            kfails.append((clause, text, dict(mode="looping-workers", seed=seed, keys=facts["keys"], plan=facts["plan"])))
+    ctx.suite("reload_lock.keyedlock_monitor", forced=nk, failures=len(kfails))
+    for clause, text, rep in kfails[:2]:
+        ctx.violation("C26 fails on the real KeyedLock used as the reload lock (%s): %s - two senders can both reload the run" % (clause, text),
+                      dict(kind="implementation-monitor", suite="keyedlock", input=rep))
+
     # ---- DBOS lifecycle lock: real SqliteRunLifecycleLock vs M-Lifecycle
     from suites import lifecycle as L
     rng = random.Random(ctx.seed * 17 + 3)
